@@ -236,13 +236,21 @@ func settle() bool {
 			if i := bytes.IndexByte([]byte(st), ','); i >= 0 {
 				st = st[:i]
 			}
-			// a goroutine that is running, runnable, in a syscall, or suspended by the runtime
-			// (preempted, stack copy, "(scan)" variants during GC) is not at rest
-			switch {
-			case strings.HasPrefix(st, "running"), strings.HasPrefix(st, "runnable"), strings.HasPrefix(st, "syscall"),
-				strings.HasPrefix(st, "preempted"), strings.HasPrefix(st, "copystack"), strings.Contains(st, "(scan)"):
+			// Only goroutines parked on a channel, a select, a sync primitive or the network are at
+			// rest. Everything else is busy: running, runnable, syscall, preempted, "(scan)" variants —
+			// and "semacquire", which is what a goroutine shows when it wants to start a GC cycle
+			// while this function's own runtime.Stack holds the world semaphore (counting it as
+			// blocked made settle return before a just-released goroutine had run: the cause of the
+			// one-off "stranded" observations, found by the C11 worker).
+			parked := false
+			for _, p := range []string{"chan receive", "chan send", "select", "sync.", "IO wait"} {
+				if strings.HasPrefix(st, p) && !strings.Contains(st, "(scan)") {
+					parked = true
+				}
+			}
+			if !parked {
 				busy = true
-			case st == "sync.Mutex.Lock" || st == "sync.RWMutex.Lock" || st == "sync.RWMutex.RLock" || st == "semacquire":
+			} else if strings.HasPrefix(st, "sync.Mutex") || strings.HasPrefix(st, "sync.RWMutex") {
 				mblocked++
 			}
 		}
